@@ -190,13 +190,23 @@ class C10(Prop):
                 return res
             base = case["root"]
             s2, applied = apply_insertions(d, base, ins, True, only_ref_objects=bool(case.get("ref_siblings")))
-            if case.get("doc_foreign_id") and len(case["docs"]) >= 2:
+            if case.get("doc_foreign_id") and len(case["docs"]) >= 2 and isinstance(base.get("properties", {}), dict):
                 other = "$id" if d <= 4 else "id"
                 us = sorted(case["docs"])
                 docs2 = copy.deepcopy(case["docs"])
                 if isinstance(docs2[us[0]], dict) and other not in docs2[us[0]]:
+                    # both documents come through the handler, the first is fetched before the second is needed
                     docs2[us[0]][other] = us[1]
-                    case = dict(case, docs_after=docs2)
+                    via2 = dict(case["via"])
+                    via2[us[0]] = via2[us[1]] = "handler"
+                    base = copy.deepcopy(base)
+                    s2 = copy.deepcopy(s2)
+                    for sch in (base, s2):
+                        sch.setdefault("properties", {})
+                        sch["properties"] = dict([("fa", {"$ref": us[0]}), ("fb", {"$ref": us[1]})],
+                                                 **dict((k, v) for k, v in sch["properties"].items() if k not in ("fa", "fb")))
+                    case = dict(case, docs_after=docs2, via=via2, root=base,
+                                instances=list(case["instances"]) + [{"fa": 1, "fb": 1}, {"fa": "a", "fb": None}])
                     applied += 1
                     res.labels.append("foreign-id-in-document")
             if case.get("ref_siblings") and applied:
